@@ -1,6 +1,6 @@
 (* Extraction of the executable models of C07 (ExtrOcamlBasic only, no Extract Constant). *)
 From Coq Require Import ZArith List Extraction ExtrOcamlBasic.
-From C07 Require TableSpec MultiHash IndexModel Gen_Segments SelectionModel TableOps ProjectModel GroupModel ProtoRun SelectModel.
+From C07 Require TableSpec MultiHash IndexModel Gen_Segments SelectionModel TableOps ProjectModel GroupModel ProtoRun SelectModel SelEditModel.
 Extraction Blacklist String.
 Separate Extraction
   TableSpec.step TableSpec.empty_table TableSpec.select TableSpec.find_by_key TableSpec.project
@@ -14,4 +14,6 @@ Separate Extraction
   IndexModel.filter_raws IndexModel.add_unique_index IndexModel.add_multi_index IndexModel.find_unique
   IndexModel.find_multi IndexModel.has_col
   ProtoRun.gen_add_raw ProtoRun.gen_remove_raw ProtoRun.gen_update_raw ProtoRun.gen_update_col
-  ProtoRun.gen_fit_unique ProtoRun.gen_fit_multi SelectModel.pv_select.
+  ProtoRun.gen_fit_unique ProtoRun.gen_fit_multi SelectModel.pv_select
+  SelEditModel.sel_reverse SelEditModel.sel_add SelEditModel.sel_insert SelEditModel.sel_insert_range SelEditModel.sel_remove
+  SelEditModel.sel_remove_pred SelEditModel.sel_set SelEditModel.sel_add_range SelEditModel.sel_assign.
